@@ -2252,6 +2252,13 @@ typename SPxSimplifier<R>::Result SPxMainSM<R>::removeEmpty(SPxLPBase<R>& lp)
          SPxOut::debug(this, "IMAISM08 col {}: empty -> maxObj={} lower={} upper={}", j, lp.maxObj(j),
                        lp.lower(j), lp.upper(j));
 
+         // infeasible bounds (as in simplifyCols(); a row singleton may have tightened them since the last check)
+         if(GTrel(lp.lower(j), lp.upper(j), feastol()))
+         {
+            SPxOut::debug(this, " infeasible bounds\n");
+            return this->INFEASIBLE;
+         }
+
          R val;
 
          if(GT(lp.maxObj(j), R(0.0), this->epsZero()))
